@@ -122,8 +122,22 @@ Hostile == SendR \/ CommitR \/ UpdateR \/ RecvGood \/ RecvR \/ RecvDup \/ AckGoo
 
 MInit == Init /\ hist = << >>
 
+(* A long history instead of many short ones: one packet after the other travels from the first chain to the second  *)
+(* (send, commit, update, receive - every step makes progress), with an occasional acknowledgement or replay, so that  *)
+(* sequences and heights reach the hundreds (behaviour that depends on how much history there is).                   *)
+LongSrc == CHOOSE c \in Chains : TRUE
+LongDst == CHOOSE d \in Chains \ {LongSrc} : TRUE
+LongNext ==
+  IF Pick(1..25) = 1 /\ (sent \ Pending) # {} THEN RecvDup
+  ELSE IF Pick(1..25) = 1 /\ ENABLED AckUseful THEN AckUseful
+  ELSE IF Receivable # {} THEN RecvUseful
+  ELSE IF Pending # {} /\ Dirty(LongSrc) /\ h[LongSrc] < MaxH THEN Commit(LongSrc)
+  ELSE IF Pending # {} /\ clients[LongDst][LongSrc].latest < h[LongSrc] THEN UpdateClient(LongDst, LongSrc, h[LongSrc], "relayer")
+  ELSE seq[LongSrc][LongDst] <= MaxSeq /\ Send(LongSrc, LongDst, "fwd", 1, "none", 0)
+
 MNext == /\ Len(hist) < Depth
-         /\ \E r \in {Pick(1..10)} : IF r <= UsefulPct THEN Useful ELSE Hostile
+         /\ IF UsefulPct > 10 THEN LongNext     \* UsefulPct = 11: the long-history generator
+            ELSE \E r \in {Pick(1..10)} : IF r <= UsefulPct THEN Useful ELSE Hostile
          /\ Log
 
 MSpec == MInit /\ [][MNext]_<<vars, hist>>
